@@ -18,14 +18,14 @@ MP = "EasyFEA.Models.InElastic._materialpoint"
 def run(ctx):
     from ..shared import zero_argument_division_rule as _zero_argument_division_rule
 
-    _zero_argument_division_rule(ctx, "R19.13", scope=lambda f: f.module.name.startswith(("EasyFEA.Models.InElastic", "EasyFEA.Simulations._inelastic")))
+    ctx.attempt(_zero_argument_division_rule, ctx, "R19.13", scope=lambda f: f.module.name.startswith(("EasyFEA.Models.InElastic", "EasyFEA.Simulations._inelastic")))
     from ..shared import snapshot_rule as _snapshot_rule
 
-    _snapshot_rule(ctx, "R19.12", scope=lambda ci: ci.module.name.startswith(("EasyFEA.Models", "EasyFEA.Simulations")))
-    multiplier_column_rule(ctx)
+    ctx.attempt(_snapshot_rule, ctx, "R19.12", scope=lambda ci: ci.module.name.startswith(("EasyFEA.Models", "EasyFEA.Simulations")))
+    ctx.attempt(multiplier_column_rule, ctx)
     from ..shared import commit_idempotent_rule as _commit_idempotent_rule
 
-    _commit_idempotent_rule(ctx, "R19.10")
+    ctx.attempt(_commit_idempotent_rule, ctx, "R19.10")
     repo = ctx.repo
     ctx.level = "other"
     ctx.explanation = (
